@@ -26,6 +26,22 @@ class HarnessError(Exception):
     """A bug in /verif code (never a VIOLATION, never success)."""
 
 
+class OpTimeout(BaseException):
+    """Raised by the per-op wall-clock watchdog (DESIGN 4.3, non-termination inside the library).  A BaseException so
+    that `except Exception` in library code cannot swallow it.  The real clock is read only by this watchdog."""
+
+
+OP_TIMEOUT_S = float(os.environ.get("VERIF_OP_TIMEOUT", "60"))
+
+
+def _on_alarm(signum, frame):
+    import signal
+
+    # re-arm: one op may call into the library more than once (a dry run, then the real call); each call gets the budget
+    signal.setitimer(signal.ITIMER_REAL, OP_TIMEOUT_S)
+    raise OpTimeout(f"no result after {OP_TIMEOUT_S:.0f} s of wall time")
+
+
 @dataclass
 class Violation:
     prop: str
@@ -82,6 +98,8 @@ def _origin(tb) -> tuple[str, str]:
     neither stdlib nor site-packages."""
     frames = traceback.extract_tb(tb)
     for fr in reversed(frames):
+        if fr.name == "_on_alarm":
+            continue  # the watchdog's handler runs on top of whatever frame was executing
         fn = os.path.realpath(fr.filename)
         if fn.startswith(REPO_DIR + os.sep):
             return "repo", f"{os.path.relpath(fn, REPO_DIR)}:{fr.lineno} {fr.name}"
@@ -242,8 +260,17 @@ class Session:
             self.oplog.append(op)
             return []
         pre = dict(w.snaps)
+        import signal
+        import threading
+
+        armed = OP_TIMEOUT_S > 0 and threading.current_thread() is threading.main_thread()
+        if armed:
+            old_handler = signal.signal(signal.SIGALRM, _on_alarm)
+            signal.setitimer(signal.ITIMER_REAL, OP_TIMEOUT_S)
         try:
             out: Outcome = spec.run(self, op)
+        except OpTimeout as e:
+            raise HarnessError(f"op {kind} did not finish within {OP_TIMEOUT_S:.0f} s and the innermost frame is not library code: {e}") from e
         except HarnessError:
             raise
         except RecursionError:
@@ -252,6 +279,10 @@ class Session:
             raise HarnessError(
                 f"op {kind} raised {type(e).__name__}: {e}\n" + "".join(traceback.format_exc()[-3000:])
             ) from e
+        finally:
+            if armed:
+                signal.setitimer(signal.ITIMER_REAL, 0)
+                signal.signal(signal.SIGALRM, old_handler)
         self.oplog.append(op)
         if out.skipped:
             self.events.append((self.step, kind, "skip2"))
